@@ -3,7 +3,7 @@ import sys, time, ast, importlib
 sys.path.insert(0, '/verif')
 mod = importlib.import_module('symgs.props.' + sys.argv[1])
 fn = getattr(mod, sys.argv[2])
-args = [ast.literal_eval(a) if a[:1] in "([{'\"0123456789-" else a for a in sys.argv[3:]]
+args = [ast.literal_eval(a) if (a[:1] in "([{'\"0123456789-" or a in ('True', 'False', 'None')) else a for a in sys.argv[3:]]
 t0 = time.time()
 res = fn(*args)
 meta = None
